@@ -52,6 +52,12 @@ def tasks(tier):
         for cut in range(1, full):
             for inj in ((0,) if tier == 'quick' and cut % 3 else (0, 1)):
                 ts.append(Task('verifHarness_C05_truncated', [kind, n, cut, inj]))
+    # G: one transient transport fault at every offset of a frame
+    for kind, n in (((0, 1), (2, 0)) if tier == 'quick' else ((0, 0), (0, 2), (1, 1), (2, 0), (2, 2))):
+        full = n + (8 if kind == 0 else 12 if kind == 1 else 25)
+        for at in range(0, full + 1):
+            for small in ((0,) if tier == 'quick' and at % 2 else (0, 1)):
+                ts.append(Task('verifHarness_C05_glitch', [kind, n, at, small]))
     # D: with a dialect: payloads shorter / exact / longer than the message, arbitrary checksum
     for n in ((0, 5, 9, 10, 20) if tier == 'quick' else (0, 1, 4, 5, 6, 9, 10, 15, 16, 19, 20, 40)):
         ts.append(Task('verifHarness_C05_dialect', [1, n], {'x25_uf': True}))
@@ -61,7 +67,7 @@ def tasks(tier):
 
 
 def required_reach(tier):
-    return ['C05/A', 'C05/B', 'C05/T', 'C05/D']
+    return ['C05/A', 'C05/B', 'C05/T', 'C05/D', 'C05/G']
 
 
 def bounds(tier):
@@ -70,6 +76,7 @@ def bounds(tier):
             'segmentations': 'reference reader: one chunk; second reader: all 1-byte chunks, and every placement of up to %d cut points' % maxmode + ('' if tier == 'quick' else ' (length 8: 1-byte chunks only; length 7: at most one cut)'),
             'structured_streams': 'two frames (v1 / v2 / signed v2, payload 0..3, all contents symbolic) with 0..2 non-marker noise bytes before, between and after; second reader fed 1-byte chunks or with ' + ('one' if tier == 'quick' else 'one or two') + ' arbitrary cut point(s); ' + ('6 layouts' if tier == 'quick' else 'all kind pairs x 4 length pairs x 6 noise layouts'),
             'truncated_frames': 'a valid v1 / v2 / signed v2 frame cut at every offset, transport ending with EOF or another error, whole or in 1-byte reads: the first call returns no frame (what follows on the leftover bytes is harness A)',
+            'transient_fault': 'a valid v1 / signed v2 (quick) frame, every kind (thorough), followed by a second frame, with one non-sticky transport error after every offset, whole or 1-byte reads: the call that runs into the fault and the next one return frame xor error, no panic, fault reported at most once; a fault between frames loses nothing (stream drained)',
             'transport_end': 'io.EOF, and a non-EOF error after the last byte (= an error injected at every offset, since every length is explored)',
             'dialect': 'reader with the harness dialect (4 message shapes): a v1 / v2 frame with a dialect id, a payload of length ' + ('0,5,9,10,20' if tier == 'quick' else '0..40 (12 values)') + ' (shorter, exact, longer than the message), arbitrary bytes and checksum, then a valid frame: frame or parse error, never a panic, the following frame delivered, then EOF; crcstep uninterpreted',
             'key': 'none (C06)'}
